@@ -49,7 +49,7 @@ Theorem C05_foreach_literal_empty_refuted : exists (sp : step),
   s_foreach sp = Some (VList []) /\
   forall (rg : RG) (rp : RP) k s, foreach_or_cond rg rp sp k s = cond rg rp sp k s.
 Proof.
-  exists (mkstep "x" BProbe None (Some (VList [])) None None (VBool true) (VBool false) (VBool false) None None).
+  exists (mkstep "x" BProbe None (Some (VList [])) None None (VBool true) (VBool false) (VBool false) None None None).
   split; [reflexivity|]. intros. now apply foreach_or_cond_falsy.
 Qed.
 Print Assumptions C05_foreach_literal_empty_refuted.
@@ -178,7 +178,7 @@ Definition lib5 : library :=
              (Some (VList [VStr "a"; VStr "b"]))
              (Some (mkw (Some (VInt 3)) (Some (VPy "(cnt >= 4)" (ECmp CGe (EName "cnt") (EInt 4))))
                         (VFloat (1 # 2)) (VBool true))) None
-             (VBool true) (VBool false) (VBool false) None (Some (1, 5)%Z)])])].
+             (VBool true) (VBool false) (VBool false) None (Some (1, 5)%Z) None])])].
 Example C05_nonvacuous :
   let r := api_run EFUEL lib5 "main" [(VStr "cnt", VInt 0)] None None None (1 # 4) in
   fst r = OOk /\ sget "cnt" (ctx (snd r)) = Some (VInt 4) /\ sleeps (snd r) = [1 # 2]
